@@ -36,12 +36,44 @@ def _spread_divmod(tree: ast.AST) -> None:
                 t = st.targets[0] if v is not None else None          # type: ignore[union-attr]
                 if (isinstance(v, ast.Call) and isinstance(v.func, ast.Name) and v.func.id == 'divmod' and len(v.args) == 2 and not v.keywords
                         and isinstance(t, (ast.Tuple, ast.List)) and len(t.elts) == 2 and all(isinstance(e, ast.Name) for e in t.elts)
-                        and not any(isinstance(x, (ast.Call, ast.NamedExpr, ast.Await, ast.Yield)) for a in v.args for x in ast.walk(a))
+                        and not any(isinstance(x, (ast.NamedExpr, ast.Await, ast.Yield)) or (isinstance(x, ast.Call) and not (
+                            isinstance(x.func, ast.Name) and x.func.id == 'len' and len(x.args) == 1 and isinstance(x.args[0], (ast.Name, ast.Attribute))))
+                            for a in v.args for x in ast.walk(a))
                         and not any(isinstance(x, ast.Name) and x.id == t.elts[0].id for a in v.args for x in ast.walk(a))):      # type: ignore[attr-defined]
                     for tgt, op in ((t.elts[0], ast.FloorDiv()), (t.elts[1], ast.Mod())):
                         new = ast.Assign(targets=[tgt], value=ast.BinOp(left=copy.deepcopy(v.args[0]), op=op, right=copy.deepcopy(v.args[1])))
                         ast.copy_location(new, st)
                         ast.copy_location(new.value, v)
+                        ast.fix_missing_locations(new)
+                        out.append(new)
+                    continue
+                out.append(st)
+            body[:] = out
+
+
+def _spread_tuple_tables(tree: ast.AST) -> None:
+    """`a, b = {k1: (x1, y1), k2: (x2, y2)}[key]` - a literal table of equal-length constant tuples, key call-free - reads as
+    `a = {k1: x1, k2: x2}[key]; b = {k1: y1, k2: y2}[key]` (in place): one table per column, the shape every rule already reads."""
+    for parent in ast.walk(tree):
+        for field in ('body', 'orelse', 'finalbody'):
+            body = getattr(parent, field, None)
+            if not isinstance(body, list):
+                continue
+            out: List[ast.stmt] = []
+            for st in body:
+                v = st.value if isinstance(st, ast.Assign) and len(st.targets) == 1 else None
+                t = st.targets[0] if v is not None else None          # type: ignore[union-attr]
+                if (isinstance(v, ast.Subscript) and isinstance(v.value, ast.Dict) and v.value.keys and isinstance(t, (ast.Tuple, ast.List))
+                        and all(isinstance(e, ast.Name) for e in t.elts) and all(isinstance(k, ast.Constant) for k in v.value.keys)
+                        and all(isinstance(x, ast.Tuple) and len(x.elts) == len(t.elts) and all(isinstance(c, ast.Constant) for c in x.elts) for x in v.value.values)
+                        and not any(isinstance(x, (ast.Call, ast.NamedExpr, ast.Await, ast.Yield)) for x in ast.walk(v.slice))
+                        and not any(isinstance(x, ast.Name) and x.id in {e.id for e in t.elts} for x in ast.walk(v.slice))):      # type: ignore[attr-defined]
+                    for i, tgt in enumerate(t.elts):
+                        col = ast.Dict(keys=[copy.deepcopy(k) for k in v.value.keys], values=[copy.deepcopy(x.elts[i]) for x in v.value.values])      # type: ignore[attr-defined]
+                        new = ast.Assign(targets=[tgt], value=ast.Subscript(value=col, slice=copy.deepcopy(v.slice), ctx=ast.Load()))
+                        ast.copy_location(new, st)
+                        ast.copy_location(new.value, v)
+                        ast.copy_location(col, v.value)
                         ast.fix_missing_locations(new)
                         out.append(new)
                     continue
@@ -125,6 +157,8 @@ class Repo:
             except SyntaxError as e:
                 raise AnalysisError(f'{rel} does not parse: {e}') from e
             _spread_divmod(tree)
+            _inline_literal_tables(self, tree, rel)
+            _spread_tuple_tables(tree)
             # locals renamed by an edit are renamed back to the vocabulary the rules use, where structure alone decides it
             from .localnames import renormalize_py
             renormalize_py(tree, rel)
@@ -205,6 +239,57 @@ class Repo:
     def site(self, rel: str, node: ast.AST, func: str = '') -> str:
         line = getattr(node, 'lineno', 0)
         return f'{rel}:{line}' + (f' {func}' if func else '')
+
+
+def _literal_table_of(tree: ast.Module, name: str) -> Optional[ast.Dict]:
+    """the literal {int: str | int} dictionary a module binds `name` to - exactly once, at module level, never stored into or updated"""
+    binds = []
+    for st in tree.body:
+        tg = st.targets[0] if isinstance(st, ast.Assign) and len(st.targets) == 1 else st.target if isinstance(st, ast.AnnAssign) and st.value is not None else None
+        if isinstance(tg, ast.Name) and tg.id == name:
+            binds.append(st.value)           # type: ignore[union-attr]
+    if len(binds) != 1 or not isinstance(binds[0], ast.Dict):
+        return None
+    d = binds[0]
+    if not d.keys or len(d.keys) > 16 or not all(isinstance(k, ast.Constant) and isinstance(k.value, int) and not isinstance(k.value, bool) for k in d.keys) \
+            or not all(isinstance(v, ast.Constant) and isinstance(v.value, (int, str)) for v in d.values):
+        return None
+    stores = sum(1 for x in ast.walk(tree) if isinstance(x, ast.Name) and x.id == name and isinstance(x.ctx, (ast.Store, ast.Del)))
+    mutated = any(isinstance(x, ast.Subscript) and isinstance(x.ctx, (ast.Store, ast.Del)) and isinstance(x.value, ast.Name) and x.value.id == name or
+                  isinstance(x, ast.Call) and isinstance(x.func, ast.Attribute) and isinstance(x.func.value, ast.Name) and x.func.value.id == name
+                  and x.func.attr in ('update', 'pop', 'popitem', 'clear', 'setdefault', '__setitem__', '__delitem__') for x in ast.walk(tree))
+    return None if stores != 1 or mutated else d
+
+
+def _inline_literal_tables(repo: 'Repo', tree: ast.Module, rel: str) -> None:
+    """`_TABLE[k]` - _TABLE a private module constant (of this module, or imported by name from a module of the repository) bound once to
+    a small literal {int: str | int} dictionary that nobody changes - reads as the literal subscripted: `{8: 'B', ..}[k]`. a per-width
+    code table hoisted to a constant reads like the inline table."""
+    cands: Dict[str, Optional[ast.Dict]] = {}
+    for st in tree.body:
+        if isinstance(st, ast.ImportFrom) and st.module:
+            base = rel.rsplit('/', 1)[0]
+            for _ in range(max(st.level - 1, 0)):
+                base = base.rsplit('/', 1)[0]
+            src_rel = (base + '/' if st.level else '') + st.module.replace('.', '/') + '.py'
+            for a in st.names:
+                if a.name.startswith('_') and not a.name.startswith('__') and repo.exists(src_rel):
+                    try:
+                        other = ast.parse(repo.src(src_rel))
+                    except SyntaxError:
+                        continue
+                    cands[a.asname or a.name] = _literal_table_of(other, a.name)
+        tg = st.targets[0] if isinstance(st, ast.Assign) and len(st.targets) == 1 else st.target if isinstance(st, ast.AnnAssign) and st.value is not None else None
+        if isinstance(tg, ast.Name) and tg.id.startswith('_') and not tg.id.startswith('__'):
+            cands[tg.id] = _literal_table_of(tree, tg.id)
+    tabs = {k: v for k, v in cands.items() if v is not None}
+    if not tabs:
+        return
+    # a function that rebinds the name locally is left alone
+    for x in ast.walk(tree):
+        if isinstance(x, ast.Subscript) and isinstance(x.ctx, ast.Load) and isinstance(x.value, ast.Name) and x.value.id in tabs:
+            x.value = ast.copy_location(clone(tabs[x.value.id]), x.value)
+            ast.fix_missing_locations(x)
 
 
 def _body_defs(node: ast.AST) -> Iterator[ast.AST]:
@@ -2104,3 +2189,91 @@ def resolve_names(fn: FuncNode, e: ast.expr, *, allow_calls: bool = False, depth
             break
         out = nxt
     return ast.fix_missing_locations(out)
+
+
+def inline_tail_return_helpers(repo: 'Repo', rel: str, fn: FuncNode) -> FuncNode:
+    """a copy of fn in which `x = _h(a, b)` - _h a private module-level helper of the same file whose every `return V` stands in tail
+    position of an if / try structure (`try: return A` / `except E: return B`) and whose arguments are call-free - reads as the helper's
+    body with the parameters substituted and every `return V` replaced by `x = V`: an extracted "read, or fall back" helper reads like
+    the block it was extracted from."""
+    def tail_only(stmts: List[ast.stmt]) -> bool:
+        if not stmts:
+            return True
+        for st in stmts[:-1]:
+            if any(isinstance(x, ast.Return) for x in ast.walk(st)):
+                return False
+        last = stmts[-1]
+        if isinstance(last, ast.Return):
+            return last.value is not None
+        if isinstance(last, ast.If):
+            return tail_only(last.body) and tail_only(last.orelse)
+        if isinstance(last, ast.Try):
+            return not last.finalbody and tail_only(last.body) and tail_only(last.orelse) and all(tail_only(h.body) for h in last.handlers)
+        return not any(isinstance(x, ast.Return) for x in ast.walk(last))
+
+    def helper_of(call: ast.Call) -> Optional[FuncNode]:
+        d = dotted(call.func)
+        if not d or '.' in d or not d.startswith('_') or d.startswith('__') or not repo.has_func(rel, d):
+            return None
+        h = repo.func(rel, d)
+        hb = [x for x in h.body if not (isinstance(x, ast.Expr) and isinstance(x.value, ast.Constant))]
+        if not hb or not isinstance(hb[-1], (ast.If, ast.Try)) or not tail_only(hb) or h.args.vararg or h.args.kwarg:
+            return None
+        if any(isinstance(x, (ast.Yield, ast.YieldFrom, ast.Await, ast.Global, ast.Nonlocal)) for x in ast.walk(h)):
+            return None
+        return h
+
+    def bind(h: FuncNode, call: ast.Call) -> Optional[Dict[str, ast.expr]]:
+        params = [a.arg for a in h.args.args]
+        if len(call.args) > len(params):
+            return None
+        b: Dict[str, ast.expr] = dict(zip(params, call.args))
+        for k in call.keywords:
+            if k.arg is None or k.arg not in params or k.arg in b:
+                return None
+            b[k.arg] = k.value
+        if set(b) != set(params) or any(isinstance(x, (ast.Call, ast.NamedExpr, ast.Await)) for v in b.values() for x in ast.walk(v)):
+            return None
+        if any(isinstance(x, ast.Name) and isinstance(x.ctx, ast.Store) for x in ast.walk(h)):
+            return None                 # a helper with locals of its own would need renaming: left as a call
+        return b
+
+    class Sub(ast.NodeTransformer):
+        def __init__(self, b: Dict[str, ast.expr], target: ast.expr):
+            self.b, self.target = b, target
+
+        def visit_Name(self, node: ast.Name) -> ast.AST:
+            return clone(self.b[node.id]) if isinstance(node.ctx, ast.Load) and node.id in self.b else node
+
+        def visit_Return(self, node: ast.Return) -> ast.AST:
+            self.generic_visit(node)
+            return ast.copy_location(ast.Assign(targets=[clone(self.target)], value=node.value, lineno=node.lineno), node)
+
+    def expand(stmts: List[ast.stmt]) -> List[ast.stmt]:
+        out: List[ast.stmt] = []
+        for st in stmts:
+            for fld in ('body', 'orelse', 'finalbody'):
+                sub = getattr(st, fld, None)
+                if isinstance(sub, list) and sub and isinstance(sub[0], ast.stmt):
+                    setattr(st, fld, expand(sub))
+            if isinstance(st, ast.Try):
+                for hd in st.handlers:
+                    hd.body = expand(hd.body)
+            if isinstance(st, ast.Assign) and len(st.targets) == 1 and isinstance(st.targets[0], ast.Name) and isinstance(st.value, ast.Call):
+                h = helper_of(st.value)
+                b = bind(h, st.value) if h is not None else None
+                if h is not None and b is not None:
+                    for x in h.body:
+                        if isinstance(x, ast.Expr) and isinstance(x.value, ast.Constant):
+                            continue
+                        y = Sub(b, st.targets[0]).visit(clone(x))
+                        for z in ast.walk(y):
+                            if hasattr(z, 'lineno'):
+                                z.lineno = z.end_lineno = st.lineno          # reports point at the call site
+                        out.append(y)
+                    continue
+            out.append(st)
+        return out
+    new = clone(fn)
+    new.body = expand(new.body)
+    return relink(ast.fix_missing_locations(new))
